@@ -100,4 +100,14 @@ OBLIGATIONS = {
         "C17.triangle_areas_abs", "C04.range_values", "C04.range_in_range", "SampleLemmas.searchsorted_eq_iff",
         "SampleLemmas.cumsum_get_succ",
     ],
+    "C01": [
+        "C01.rowsOf_length", "C01.rowCount_eq_sum", "C01.columns_rectangular", "C01.group_contributes_num",
+        "C01.row_integrity", "C01.missing_attr_zero", "C01.insertRow_perm", "C01.sortRows_perm", "C01.sortRows_sorted",
+        "C01.rows_perm_of_groups", "C01.columns_requested", "C01.columns_default", "C01.dictMerge_new",
+        "C01.single_release_default_order",
+    ],
+    "C18": [
+        "C18.flat_eq_grouped", "C18.list_eq_grouped", "C18.validate_congr", "C18.containers_agree", "C18.missing_spec",
+        "C18.validate_none_iff", "C18.invalid_rejected", "C01.rows_perm_of_groups",
+    ],
 }
